@@ -4,6 +4,7 @@ def jobs(tier):
     return C26.jobs(tier) + C02.jobs_lia()
 def info(tier, results):
     i = C26.info(tier, results)
+    i['level'] = 'other'
     i['explanation'] = ('A clause of linear arithmetic "not all of these bounds" is valid in the theory exactly if a non-negative combination of the bounds cancels every variable and leaves a false constant inequality (Farkas). '
                         'The jobs shared with C26 decide that for the row-based explanation (getConflictingBounds: positive coefficients, every variable cancels; pivot selection: the conflict is reported only when no row variable can move, which makes the constant false) '
                         'and for the bound conflict of assertBound (the asserted bound and the active opposite bound of the same variable). The job shared with C02 decides that a branch-and-bound split is x <= c or x >= c+1 with integer c, which is valid over the integers. '
